@@ -110,6 +110,14 @@ def xy (v : V3 α) : P2 α := ⟨v.x, v.y⟩
 /-- `_is_simple(planar_vertices)`; `len(isect_polygon(vertices)) == 0` is modelled by `Spec.edgesOK` -/
 def isSimple (planar : List (V3 α)) : Bool := Spec.edgesOK (normalise (planar.map xy))
 
+/-- `_is_simple(planar_vertices)` as repaired by b73b691: the sweep is external; `asserts pts` says whether it fails one
+of its internal assertions on the prepared points (`AssertionError`, caught: `return False`), otherwise its answer is
+modelled by `Spec.edgesOK` (contract). -/
+def isSimpleSweep (asserts : List (P2 α) → Bool) (planar : List (V3 α)) : Bool :=
+  let pts := normalise (planar.map xy)
+  -- try: return len(isect_polygon(vertices)) == 0   except AssertionError: return False
+  if asserts pts then false else Spec.edgesOK pts
+
 /-- `Polygon.__init__(vertices, normal, planar_tolerance, test_simple)`; `ndim`, `ncols` describe the shape of
 `np.array(vertices)` (rows are given as 3-vectors, the third component is ignored when `ncols = 2`). -/
 def Polygon.new (ndim ncols : Nat) (rows : List (V3 α)) (normal : Option (V3 α)) (ptol : α)
@@ -125,6 +133,25 @@ def Polygon.new (ndim ncols : Nat) (rows : List (V3 α)) (normal : Option (V3 α
     | .ok (some n) =>
       if !coplanar n verts ptol then .error "ValueError:coplanar"
       else if testSimple && !isSimple (align n verts) then .error "ValueError:simple"
+      else .ok ⟨verts, n, .fresh, .fresh⟩
+
+/-- `Polygon.__init__` with the sweep's `AssertionError` modelled (`asserts`, see `isSimpleSweep`): identical to
+`Polygon.new` except that the simplicity test also fails when the sweep asserts. `Polygon.new` is the case of a sweep
+that returns normally (`polygon_newSweep_eq_new`). -/
+def Polygon.newSweep (ndim ncols : Nat) (rows : List (V3 α)) (normal : Option (V3 α)) (ptol : α)
+    (testSimple : Bool) (align : V3 α → List (V3 α) → List (V3 α)) (asserts : List (P2 α) → Bool) :
+    Except String (Poly α) :=
+  if ndim ≠ 2 ∨ (ncols ≠ 2 ∧ ncols ≠ 3) then .error "ValueError:shape"
+  else if rows.length < 3 then .error "ValueError:short"
+  else if hasDup ncols rows then .error "ValueError:duplicate"
+  else
+    let verts := rows.map (pad ncols)
+    match chooseNormal (cornerNormal verts) normal with
+    | .error e => .error e
+    | .ok none => .error "ValueError:coplanar"
+    | .ok (some n) =>
+      if !coplanar n verts ptol then .error "ValueError:coplanar"
+      else if testSimple && !isSimpleSweep asserts (align n verts) then .error "ValueError:simple"
       else .ok ⟨verts, n, .fresh, .fresh⟩
 
 /-! ### ConvexPolygon -/
@@ -202,9 +229,11 @@ structure Polyh (α : Type) where
 
 def ConvexPolyhedron.new (rows : List (V3 α)) (hull : List (V3 α) → Except String Nat) :
     Except String (Polyh α) :=
-  -- self._vertices = np.array(vertices); hull = ConvexHull(self._vertices)
+  -- self._vertices = np.array(vertices)
+  -- try: hull = ConvexHull(self._vertices)   except QhullError as error: raise ValueError(...) from error      (f256559)
+  -- (scipy's own input validation — nan, no points — raises ValueError itself)
   match hull rows with
-  | .error e => .error e
+  | .error _ => .error "ValueError:hull"
   | .ok h =>
     if h == rows.length then .ok ⟨rows, .fresh⟩ else .error "ValueError:convex"
 
@@ -333,12 +362,16 @@ structure Sites where
   convexPolyhedronVertices : Conv
   /-- circle.py / sphere.py / ellipse.py / ellipsoid.py `self._centroid = np.array(value)` (no dtype) -/
   centre : Curved → Conv
-  /-- polyhedron.py `self._faces = [face for face in faces]`: `false` = the face OBJECTS are kept (as coded),
-      `true` = each face would be copied -/
+  /-- polyhedron.py `self._faces = [face.copy() if isinstance(face, np.ndarray) else list(face) for face in faces]`
+      (b62a6dc): `true` = every ndarray face is copied (as coded now); `false` = the face OBJECTS are kept
+      (`[face for face in faces]`, the code before the fix) -/
   copyFaces : Bool
 
 /-- /repo as it is -/
-def repoSites : Sites := ⟨.array, .array, .array, .array, fun _ => .array, false⟩
+def repoSites : Sites := ⟨.array, .array, .array, .array, fun _ => .array, true⟩
+
+/-- /repo before b62a6dc (regression witness only) -/
+def sitesBeforeFacesFix : Sites := { repoSites with copyFaces := false }
 
 /-- blocks of the arrays a polygon keeps -/
 structure PolyBlocks where
@@ -378,17 +411,17 @@ structure PolyhBlocks where
   equations : Nat
 deriving Repr
 
-/-- `Polyhedron.__init__(vertices, faces)`: `_vertices` copied, `_faces = [face for face in faces]`,
+/-- `Polyhedron.__init__(vertices, faces)`: `_vertices` copied; `_faces`: every ndarray face (a member of a list of
+arrays, or a row view of one 2-D array) is `.copy()`-ed, any other sequence becomes a new Python list (no array);
 `_equations = np.empty(...)` filled in place -/
 def Polyhedron.alloc (σ : Sites) (verts : ArgKind) (faces : FacesKind) (nfaces : Nat) (s : Alloc) :
     PolyhBlocks × Alloc :=
   let (bv, s1) := convert σ.polyhedronVertices true verts s
   let (bf, s2) : List Nat × Alloc :=
-    if σ.copyFaces then Alloc.freshN nfaces s1
-    else match faces with
-      | .nested => ([], s1)
-      | .arrays blks => (blks, s1)
-      | .array2d blk => (List.replicate nfaces blk, s1)
+    match faces with
+    | .nested => ([], s1)                                   -- list(face): Python lists, no ndarray
+    | .arrays blks => if σ.copyFaces then Alloc.freshN blks.length s1 else (blks, s1)
+    | .array2d blk => if σ.copyFaces then Alloc.freshN nfaces s1 else (List.replicate nfaces blk, s1)
   let (be, s3) := s2.fresh
   (⟨bv, bf, be⟩, s3.write be)
 
